@@ -27,11 +27,13 @@ struct Case {
     /// 0 = default solver, 1 = xtol 1e30 (converges after two evaluations whatever the data), 2 = y := 0 (ResidualsZero)
     solver: u8,
     f32_: bool,
+    /// user-chosen singular value threshold (0.0 = builder default)
+    eps: f64,
 }
 
 fn case_json(c: &Case) -> Value {
     json!({"family": c.fam.name(), "fam": fam_json(&c.fam), "n": c.n, "prov": c.prov.name(), "par": c.par, "w": format!("{:?}", c.w), "wk": wkind_json(&c.w),
-           "noise_variant": c.noise_variant, "level": c.level, "amp": c.amp, "solver": c.solver, "scalar": if c.f32_ {"f32"} else {"f64"}})
+           "noise_variant": c.noise_variant, "level": c.level, "amp": c.amp, "solver": c.solver, "scalar": if c.f32_ {"f32"} else {"f64"}, "eps": c.eps})
 }
 fn fam_json(f: &Family) -> Value {
     match f {
@@ -103,6 +105,7 @@ fn case_parse(v: &Value) -> Case {
         amp: v["amp"].as_f64().unwrap(),
         solver: v["solver"].as_u64().unwrap() as u8,
         f32_: v["scalar"] == "f32",
+        eps: v["eps"].as_f64().unwrap_or(0.0),
     }
 }
 
@@ -151,7 +154,7 @@ fn run_case<T: Sc>(ctx: &Ctx, c: &Case, prop: &str, tt: &TTable, seed: u64) {
     let cj = || case_json(c);
     let model = make_t::<T>(&pr.spec, c.prov, &pr.a0);
     let ymat = DMatrix::from_column_slice(n, 1, pr.y.as_slice());
-    let built = guarded(|| prob::build(model, &ymat, pr.w.as_ref(), None, Api::Single, c.par));
+    let built = guarded(|| prob::build(model, &ymat, pr.w.as_ref(), if c.eps != 0.0 { Some(T::f(c.eps)) } else { None }, Api::Single, c.par));
     let problem = match built {
         Err(msg) => {
             ctx.with(|s| s.violate("C08", "panic:build", cj(), format!("build panicked: {}", msg)));
@@ -508,7 +511,7 @@ fn run_fault_sweep<T: Sc>(ctx: &Ctx, c: &Case, seed: u64) {
     let count_calls = |stats: bool| -> Option<(u64, bool)> {
         let plan = FaultPlan::never();
         let model = Faulty::wrap(make_t::<T>(&pr.spec, c.prov, &pr.a0), plan.clone());
-        let problem = prob::build(model, &ymat, pr.w.as_ref(), None, Api::Single, c.par).ok()?;
+        let problem = prob::build(model, &ymat, pr.w.as_ref(), if c.eps != 0.0 { Some(T::f(c.eps)) } else { None }, Api::Single, c.par).ok()?;
         let ok = if stats {
             let (_f, s) = problem.fit_stats(solver_for::<T>(c));
             s.is_some()
@@ -527,7 +530,7 @@ fn run_fault_sweep<T: Sc>(ctx: &Ctx, c: &Case, seed: u64) {
             let plan = FaultPlan::new(k, mode, OnFailedSet::Keep);
             let model = Faulty::wrap(make_t::<T>(&pr.spec, c.prov, &pr.a0), plan.clone());
             let r = guarded(|| {
-                let problem = prob::build(model, &ymat, pr.w.as_ref(), None, Api::Single, c.par).unwrap();
+                let problem = prob::build(model, &ymat, pr.w.as_ref(), if c.eps != 0.0 { Some(T::f(c.eps)) } else { None }, Api::Single, c.par).unwrap();
                 problem.fit_stats(solver_for::<T>(c))
             });
             ctx.with(|s| {
@@ -564,7 +567,7 @@ fn shapes_cases(thorough: bool) -> Vec<Case> {
                                 if !thorough && prov == Prov::Built && solver == 1 {
                                     continue;
                                 }
-                                v.push(Case { fam: Family::GenProd { m, p, inc: default_inc(m, p) }, n, prov, par: false, w, noise_variant: 1, level: 1e-3, amp: 1.0, solver, f32_ });
+                                v.push(Case { fam: Family::GenProd { m, p, inc: default_inc(m, p) }, n, prov, par: false, w, noise_variant: 1, level: 1e-3, amp: 1.0, solver, f32_, eps: 0.0 });
                             }
                         }
                     }
@@ -573,13 +576,22 @@ fn shapes_cases(thorough: bool) -> Vec<Case> {
         }
     }
     let fams = [Family::Exp1Off, Family::Exp2Off, Family::Exp3, Family::GaussDecayOff, Family::OLeary];
+    for fam in fams.iter() {
+        for eps in [0.5, 0.05, -0.2] {
+            for f32_ in [false, true] {
+                for (n, w) in [(12usize, WKind::None), (20, WKind::Ramp)] {
+                    v.push(Case { fam: fam.clone(), n, prov: Prov::Hand, par: false, w, noise_variant: 2, level: 1e-3, amp: 1.0, solver: 0, f32_, eps });
+                }
+            }
+        }
+    }
     for fam in fams {
         let (m, p) = (fam.m(), fam.p());
         for n in m..=(m + p + 3) {
             for &f32_ in scal {
                 for solver in [0u8, 1, 2] {
                     for par in [false, true] {
-                        v.push(Case { fam: fam.clone(), n, prov: if par { Prov::Hand } else { Prov::Built }, par, w: WKind::InvSigma, noise_variant: 2, level: 1e-3, amp: 1.0, solver, f32_ });
+                        v.push(Case { fam: fam.clone(), n, prov: if par { Prov::Hand } else { Prov::Built }, par, w: WKind::InvSigma, noise_variant: 2, level: 1e-3, amp: 1.0, solver, f32_, eps: 0.0 });
                     }
                 }
             }
@@ -606,7 +618,7 @@ fn cov_cases(thorough: bool) -> Vec<Case> {
                                         if !thorough && (nv == 2 || (prov == Prov::Built && amp != 1.0) || (extra == 4 && w == WKind::Ramp)) {
                                             continue;
                                         }
-                                        v.push(Case { fam: Family::GenProd { m, p, inc: *inc }, n: m + p + extra, prov, par: false, w, noise_variant: nv, level: 1e-3, amp, solver: 0, f32_ });
+                                        v.push(Case { fam: Family::GenProd { m, p, inc: *inc }, n: m + p + extra, prov, par: false, w, noise_variant: nv, level: 1e-3, amp, solver: 0, f32_, eps: 0.0 });
                                     }
                                 }
                             }
@@ -627,7 +639,7 @@ fn cov_cases(thorough: bool) -> Vec<Case> {
                     for amp in [1.0, 1e-5, 1e5] {
                         for f32_ in [false, true] {
                             for (prov, par) in [(Prov::Hand, false), (Prov::Built, false), (Prov::Built, true)] {
-                                v.push(Case { fam: fam.clone(), n, prov, par, w, noise_variant: nv, level: 1e-3, amp, solver: 0, f32_ });
+                                v.push(Case { fam: fam.clone(), n, prov, par, w, noise_variant: nv, level: 1e-3, amp, solver: 0, f32_, eps: 0.0 });
                             }
                         }
                     }
@@ -655,7 +667,7 @@ fn band_cases(thorough: bool) -> Vec<Case> {
                         if !thorough && (prov == Prov::Built) != (w == WKind::Ramp) {
                             continue;
                         }
-                        v.push(Case { fam: fam.clone(), n: fam.m() + fam.p() + nu, prov, par: false, w, noise_variant: 1, level: 1e-3, amp: 1.0, solver: 0, f32_ });
+                        v.push(Case { fam: fam.clone(), n: fam.m() + fam.p() + nu, prov, par: false, w, noise_variant: 1, level: 1e-3, amp: 1.0, solver: 0, f32_, eps: 0.0 });
                     }
                 }
             }
@@ -665,7 +677,7 @@ fn band_cases(thorough: bool) -> Vec<Case> {
                 if nu > 100 && fi >= 2 {
                     continue;
                 }
-                v.push(Case { fam: fam.clone(), n: fam.m() + fam.p() + nu, prov: Prov::Hand, par: false, w: WKind::None, noise_variant: 1, level: 1e-3, amp: 1.0, solver: 0, f32_ });
+                v.push(Case { fam: fam.clone(), n: fam.m() + fam.p() + nu, prov: Prov::Hand, par: false, w: WKind::None, noise_variant: 1, level: 1e-3, amp: 1.0, solver: 0, f32_, eps: 0.0 });
             }
         }
     }
